@@ -58,6 +58,12 @@ CLAIMS = {
         "note": "toml, csv, regex, json, shlex, hashlib are dependencies; string-level functions are outside the proved subset (bounded tier only).",
         "design_ref": "DESIGN.md section 4 C10",
     },
+    "C11": {
+        "text": "_sort_by_gid keeps (glyph, parallel entry) pairs together and orders by glyph id (exhaustive symbolic execution for coverages of up to 3 glyphs: finite scope, labelled bounded). Exhaustive finite enumerations: every coverage-indexed array and glyph-ordered list the OpenType GSUB/GPOS/GDEF chapters define is in nanoemoji's rule table, every rule's attribute path exists in fontTools otData, every Coverage field of otData has a rule. Bounded: a font with single/pair/cursive/mark-base/mark-lig/mark-mark/contextual/reverse-chaining lookups and GDEF lists is permuted randomly, saved and reloaded; cmap, metrics, outlines and every lookup's name-level meaning are unchanged and every coverage table is sorted.",
+        "note": "fontTools iterSubTables reaches every subtable; lookups fontTools models as name-keyed dicts are re-sorted by fontTools; MATH is outside the property.",
+        "design_ref": "DESIGN.md section 4 C11",
+        "category": "other",
+    },
     "C13": {
         "text": "Partial. Discharged for all inputs: every transform paint's gettransform equals the COLR specification's affine; font->viewBox map is the inverse of the C01 placement; _apply_transform conjugates by the font->viewBox map and resets the transform; palette entry -> colour (foreground -> currentColor, CPAL alpha x paint alpha, index kept iff multi-palette, out of range raises); uniform/residual split of radial gradients. Bounded: generated COLRv1 fonts converted by colr_to_svg and compared by sampling against a COLR evaluator.",
         "note": "lxml document assembly, SVGPathPen and fontTools glyph drawing are bounded-tier only; trigonometric functions uninterpreted; SVG renderer semantics assumed as implemented in contracts/e2e.py.",
